@@ -303,14 +303,14 @@ PROPS["C03"] = {
     "level": "model_checking",
     "quick": [
         J(c03 + "Ops", ops=3),
-        J(c03 + "Threshold", ops=2, window=8, winbase=4090, covers=["dense bucket"]),
-        J(c03 + "Threshold", ops=2, window=6, winbase=61, step=2, base=0, covers=["dense bucket"]),
+        J(c03 + "Threshold", cfg={"MaxInstr": 40000000}, ops=2, window=8, winbase=4090, covers=["dense bucket"]),
+        J(c03 + "Threshold", cfg={"MaxInstr": 40000000}, ops=2, window=6, winbase=61, step=2, base=0, covers=["dense bucket"]),
     ],
     "thorough": [
         J(c03 + "Ops", ops=4),
-        J(c03 + "Threshold", ops=3, window=8, winbase=4090, highs=3, covers=["dense bucket"]),
-        J(c03 + "Threshold", ops=2, window=12, winbase=58, step=2, base=0, highs=2, covers=["dense bucket"]),
-        J(c03 + "Threshold", ops=2, window=8, winbase=65530, step=1, base=61440, covers=["dense bucket"]),
+        J(c03 + "Threshold", cfg={"MaxInstr": 40000000}, ops=3, window=8, winbase=4090, highs=3, covers=["dense bucket"]),
+        J(c03 + "Threshold", cfg={"MaxInstr": 40000000}, ops=2, window=12, winbase=58, step=2, base=0, highs=2, covers=["dense bucket"]),
+        J(c03 + "Threshold", cfg={"MaxInstr": 40000000}, ops=2, window=8, winbase=65530, step=1, base=61440, covers=["dense bucket"]),
     ],
     "bounds": {"quick": "usable from the zero value; 3 arbitrary Add/Remove with fully symbolic uint32 values (every distribution over high-16-bit buckets, every order) then Contains of a fresh symbolic value, Len, and Iter/Range/All (complete, ascending, early stop) against a branch-free set model; threshold: a bucket pre-filled with exactly 4096 lows (0..4095, and the even numbers 0..8190), then 2 symbolic Add/Remove inside a window of 8 (6) lows across the fill boundary / a 64-bit word boundary, covering the sparse->dense conversion at the 4097th element: return values, Len, Contains of a symbolic value near the window, and complete enumeration (count, order, membership) by Iter, count by Range and All",
                "thorough": "4 operations; threshold with 3 operations, wider windows, three different high halves, a fill at the top of the low range"},
